@@ -554,6 +554,12 @@ def ubounds(t, depth=0):
 def icmp(pred, a, b):
     if pred in _SWAP:
         pred, a, b = _SWAP[pred], b, a
+    if pred == 'ult' and a.op == 'add' and len(a.args) == 2 and a.w == b.w and (b is a.args[0] or b is a.args[1]) and a.args[0].op != 'const' and a.args[1].op != 'const':
+        # (p + q) < p  and  (p + q) < q  are the same carry-out: one canonical representative whichever operand the code (or a substitution) names
+        p_, q_ = a.args
+        if q_.id < p_.id:
+            p_, q_ = q_, p_
+        return mk('icmp', ('ult', a, p_), 1)
     if pred in ('ult', 'ule') and (a.op in ('add', 'concat', 'select') or b.op in ('add', 'concat', 'select')) and not (a.op == 'const' and b.op == 'const'):
         (la, ha), (lb, hb) = ubounds(a), ubounds(b)
         if (ha < lb) if pred == 'ult' else (ha <= lb):
